@@ -262,6 +262,7 @@ def run(chk):
     stale_rule(chk, repo)
     resume_rules(chk, repo)
     hunt4_rules(chk, repo)
+    hunt5_rules(chk, repo)
     hp = repo.func(HP, "HttpParser.feed_data")
     st = [s for s, _b in K.stmts(hp, "self._payload_has_more_data = payload_state == PayloadState.PAYLOAD_HAS_PENDING_INPUT")]
     loop = [w for w in ast.walk(hp.node) if isinstance(w, ast.While) and "self._payload_has_more_data" in norm.raw(w.test)]
@@ -446,6 +447,34 @@ def hunt4_rules(chk, repo):
             chk.violation("C09.complete", fn, K.short(feeds[0]), "if <the part is at its end> and not d.eof: raise ValueError(...)",
                           f"BodyPartReader.{name}() decodes a part without asking the decompressor whether its stream ended: a multipart part with `Content-Encoding: gzip` whose compressed stream is cut short (boundary framing intact) is returned as a complete body - by read(decode=True) / text() / json() / form(), by decode(await part.read()), by a read_chunk()/decode_iter() loop or when the part is forwarded (BodyPartReaderPayload.write()): 34618 of 90000 bytes, no error, the handler answers 200 - the same bytes as an HTTP-level gzip body get 400")
     chk.expect_count("C09.complete.multipart", ndec, 2, "methods of BodyPartReader that feed a decompressor")
+
+
+def hunt5_rules(chk, repo):
+    """Rule written after the fifth defect hunt (F286)."""
+    MP = "aiohttp/multipart.py"
+    # ---- C09.part.keep: bytes that read() has taken out of the stream are not lost when the call is interrupted ----------------------------------------
+    # read() moves what it has collected into a local (`data = self._read_partial; self._read_partial = bytearray()`); from there to the
+    # return, every suspension point - the read_chunk() loop and the chunk-wise decoding in the executor - can raise CancelledError
+    # (asyncio.wait_for / timeout).  Each has to sit under a handler that puts the local back, or a second read() returns b"" for a 30 MB part.
+    rd = repo.func(MP, "BodyPartReader.read")
+    take = [a for a in ast.walk(rd.node) if isinstance(a, ast.Assign) and norm.raw(a.targets[0]) == "self._read_partial" and isinstance(a.value, ast.Call) and norm.raw(a.value.func) in ("bytearray", "bytes")]
+    if not take:
+        chk.ok("C09.part.keep", rd, "read() does not move the collected bytes out of the reader")
+        return
+    holder = [v for _d, v in norm.fn_defs(rd.node).defs.items()]
+    names = [n for n, ds in norm.fn_defs(rd.node).defs.items() if any(v is not None and norm.raw(v) == "self._read_partial" for _x, v in ds)]
+    sus = [x for x in ast.walk(rd.node) if isinstance(x, (ast.Await, ast.AsyncFor)) and x.lineno > take[0].lineno]
+    nsus = 0
+    for x in sus:
+        nsus += 1
+        hs = [h for _t, h in K.enclosing_try_handlers(x) if (h.type is None or any(t in ("BaseException",) for t in PC.handler_types(h)))
+              and any(isinstance(a, ast.Assign) and norm.raw(a.targets[0]) == "self._read_partial" and norm.raw(a.value) in names for a in ast.walk(h))]
+        if hs:
+            chk.ok("C09.part.keep", x, f"`{K.short(x, 50)}`: an interruption puts `{names[0] if names else '?'}` back into self._read_partial")
+        else:
+            chk.violation("C09.part.keep", x, K.short(x, 70), "try: ... except BaseException: self._read_partial = data; raise",
+                          "read() holds the collected part in a local while it suspends here: a read(decode=True) / text() / json() / form() that is cancelled while the part is being decoded in the executor (asyncio.wait_for, asyncio.timeout) loses the whole part - the stream is at its end already, so the next read() returns b'' instead of 30 MB, without an error")
+    chk.expect_count("C09.part.keep", nsus, 2, "suspension points of BodyPartReader.read() after the collected bytes were moved into a local")
 
 
 def resume_rules(chk, repo):
